@@ -220,7 +220,7 @@ DATA_VAL = [1.0, 2.0, 3.0, 5.0]
 CTX_VAL = [10.0, 20.0, 30.0, 40.0]
 XVAL = [1.0, 2.0, 4.0, 8.0]
 
-HEAD_B = HEAD + ("from formulaic.utils.context import capture_context\n"
+HEAD_B = HEAD + ("import types\nfrom formulaic.utils.context import capture_context\n"
                  "from formulaic.utils.layered_mapping import LayeredMapping\n")
 
 # How the caller hands its context over. Every style builds `mm` from `formula`, `data` and the context items
@@ -267,7 +267,9 @@ def run_style(style, formula, data, items):
     from formulaic.utils.layered_mapping import LayeredMapping
 
     src = style_source(style, items)
-    env = {"np": np, "pd": pd, "Formula": Formula, "model_matrix": model_matrix, "capture_context": capture_context,
+    import types
+
+    env = {"np": np, "pd": pd, "types": types, "Formula": Formula, "model_matrix": model_matrix, "capture_context": capture_context,
            "LayeredMapping": LayeredMapping, "formula": formula, "data": pd.DataFrame(data)}
     exec(compile(src, "<c17-style>", "exec"), env)  # exceptions are outcomes of the code under test (the source is fixed text)
     return env["mm"], src
@@ -300,6 +302,8 @@ def check_resolution(b, counts):
 
     def judge(kind, formula, data, items, want, var, layer, tag, nontrivial):
         for style in STYLES:
+            if tag.endswith(":T+ctx") and style in ("caller-locals", "caller-globals", "capture_context"):
+                continue  # the generated calling frame has `np` among its globals, so there the context supplies it
             if style != "dict" and not items:
                 continue  # nothing to hand over: all styles coincide
             if style in ("caller-locals", "caller-globals", "capture_context") and not all(k.isidentifier() for k, _ in items):
@@ -350,6 +354,30 @@ def check_resolution(b, counts):
         ("I(x * k) - 1", [("k", "3.0")], [3 * v for v in XVAL], "k", "context", "constant:C"),
         ("I(x * k) - 1", [("k", "3.0")], [3 * v for v in XVAL], "x", "data", "constant:C:data-side"),
         ("I(x * k) + fn(x) + np.sqrt(x) - 1", [("k", "3.0"), ("fn", "(lambda v: v + 100)"), ("np", "np")], [float(np.sqrt(v)) for v in XVAL], "fn", "context", "several:C"),
+    ]
+    # values and functions reached through 1, 2 and 3 attribute levels; the source is the layer that supplies the ROOT name
+    ns = ("types.SimpleNamespace(k=3.0, fn=(lambda v: v + 1), inner=types.SimpleNamespace(k=5.0, fn=(lambda v: v + 2), "
+          "deep=types.SimpleNamespace(k=7.0, fn=(lambda v: v + 3))))")
+    sq = [float(np.sqrt(v)) for v in XVAL]
+    cases += [
+        # rooted in the caller's context
+        ("{ns.k * x} - 1", [("ns", ns)], [3 * v for v in XVAL], "ns.k", "context", "attr1-value:C"),
+        ("{ns.inner.k * x} - 1", [("ns", ns)], [5 * v for v in XVAL], "ns.inner.k", "context", "attr2-value:C"),
+        ("{ns.inner.deep.k * x} - 1", [("ns", ns)], [7 * v for v in XVAL], "ns.inner.deep.k", "context", "attr3-value:C"),
+        ("ns.fn(x) - 1", [("ns", ns)], [v + 1 for v in XVAL], "ns.fn", "context", "attr1-callable:C"),
+        ("ns.inner.fn(x) - 1", [("ns", ns)], [v + 2 for v in XVAL], "ns.inner.fn", "context", "attr2-callable:C"),
+        ("ns.inner.deep.fn(x) - 1", [("ns", ns)], [v + 3 for v in XVAL], "ns.inner.deep.fn", "context", "attr3-callable:C"),
+        ("np.add.accumulate(x) - 1", [("np", "np")], np.cumsum(XVAL).tolist(), "np.add.accumulate", "context", "attr2-callable:CT"),
+        ("np.lib.scimath.sqrt(x) - 1", [("np", "np")], sq, "np.lib.scimath.sqrt", "context", "attr3-callable:CT"),
+        # rooted in the built-in transforms layer (`np` is also a built-in name; no context supplies it here)
+        ("np.sqrt(x) - 1", [], sq, "np.sqrt", "transforms", "attr1-callable:T"),
+        ("np.emath.sqrt(x) - 1", [], sq, "np.emath.sqrt", "transforms", "attr2-callable:T"),
+        ("np.lib.scimath.sqrt(x) - 1", [], sq, "np.lib.scimath.sqrt", "transforms", "attr3-callable:T"),
+        ("np.emath.sqrt(x) - 1", [("unrelated", "1.0")], sq, "np.emath.sqrt", "transforms", "attr2-callable:T+ctx"),
+        # rooted in a data column (attributes of the column object)
+        ("I(x.values * 2) - 1", [], [2 * v for v in XVAL], "x.values", "data", "attr1-value:D"),
+        ("I(x.values.real * 2) - 1", [], [2 * v for v in XVAL], "x.values.real", "data", "attr2-value:D"),
+        ("I(x.values.real.T * 2) - 1", [("unrelated", "1.0")], [2 * v for v in XVAL], "x.values.real.T", "data", "attr3-value:D"),
     ]
     for formula, items, want, var, layer, tag in cases:
         judge("resolve-callable", formula, {"x": XVAL}, items, want, var, layer, tag, True)
@@ -474,13 +502,13 @@ def run_bounded(ctx):
             "resolution-order",
             rule="every name in {n (no transform), log, center (built-in transforms), `my col`, `a-b` (not identifiers, back-ticked)} x presence in data/context (3 patterns) x 4 ways "
                  "of using a value (bare name, inside I(), inside {}, in an interaction), plus callables (built-in, context override, "
-                 "context-only, dotted attribute/callable, constants, several at once) and a data column shadowing a callable; x 7 ways "
+                 "context-only, values and functions behind 1/2/3 attribute levels rooted in context objects, the built-in `np` and data columns, constants, several at once) and a data column shadowing a callable; x 7 ways "
                  "of handing the context over (dict, LayeredMapping unnamed/named/nested, caller's locals and caller's globals through "
                  "the default model_matrix(...) frame capture, capture_context(0) + Formula.get_model_matrix); each layer supplies a "
                  "distinguishable value so the matrix shows where the value came from; the reported source is judged by its top-level "
                  "layer name; non-trivial = >= 2 layers define the name",
             exhaustive=True,
-            bound="(5 names x 3 presence patterns x 4 usages + 10 callable cases) x 7 context-passing styles",
+            bound="(5 names x 3 presence patterns x 4 usages + 25 callable/attribute cases) x 7 context-passing styles",
         ) as b:
             check_resolution(b, counts)
         with ctx.bounded(
